@@ -264,11 +264,14 @@ var BindMapOrderToggle = func() (setReverse func(bool), unbind func()) { return 
 // typedTokens: field names (with and without case variants), values of every typed kind, separators.
 // The quick tier uses the first typedQuick tokens (the most discriminating ones), thorough all of them.
 var typedTokens = []string{"Source: ", "source: ", "SOURCE: ", "Package: ", "Version: ", "Architecture: ", "Files:", "Build-Depends: ", "Depends: ", "Installed-Size: ",
-	"d41d8cd98f00b204e9800998ecf8427e 10 f_1.dsc", "12", "1:1.0-1", "a (>= 1) | b [amd64]", "((", "\n", " ", "x y",
+	"d41d8cd98f00b204e9800998ecf8427e 10 f_1.dsc", "12", "1:1.0-1", "a (>= 1) | b [amd64]", "((", "\n", " ", "x y", longHex + " 10 f",
 	// thorough only:
 	"VERSION: ", "Binary: ", "Checksums-Sha256:", "Essential: ", "d41d 10 devel optional f", "-3", "any all", "yes"}
 
-const typedQuick = 18
+const typedQuick = 19
+
+// a digest token longer than any real digest (SHA-512 has 128 hex digits)
+var longHex = strings.Repeat("ab", 130)
 
 func alphabets(quick bool) []alpha {
 	typed := typedTokens
@@ -294,14 +297,14 @@ var seeds = map[string][]string{
 	"dependency.Parse": {"foo, bar | baz", "a:any (>= 1.0) [amd64 !i386] <!x y> <z>, ${misc:Depends}", "foo (>= 1", "foo [amd64", "a b", "foo,\n bar\n", "",
 		// one seed per error path of the parser
 		"foo (>= 1.0 beta)", "foo (>= 1.0 ", "foo [!a b]", "foo [a !b]", "foo <!!x>", "foo <x!y>", "foo (?? 1)", "foo (>", "${x", "a (>= 1) (<< 2)", "a [x] [y]", "a <x", "b (<< 2.0~rc1) | c (= 1:1-1)"},
-	"control.ParagraphReader":      {"A: 1\nB: 2\n c\n .\n\nC: 3\n", "# c\nA:\n x\n", "no colon\n", " orphan\n", "A: 1\r\n\r\nB: 2", ""},
-	"control.ParagraphReader.Next": {"A: 1\nB: 2\n c\n .\n\nC: 3\n", "# c\nA:\n x\n", "no colon\n", " orphan\n", ""},
-	"control.ParseDsc":             {"Format: 3.0 (quilt)\nSource: hello\nBinary: hello, hello-doc\nArchitecture: any all\nVersion: 2.10-1\nBuild-Depends: debhelper (>= 9)\nFiles:\n d41d8cd98f00b204e9800998ecf8427e 10 hello_2.10-1.dsc\n", "Version: a\n", "Files:\n x\n", ""},
-	"control.ParseChanges":         {"Format: 1.8\nSource: hello\nBinary: hello\nArchitecture: source\nVersion: 2.10-1\nFiles:\n d41d8cd98f00b204e9800998ecf8427e 10 devel optional hello_2.10-1.dsc\n", "Version: a\n", "Files:\n d41d 10 f\n", ""},
-	"control.ParseControl":         {"Source: hello\nBuild-Depends: debhelper (>= 9)\n\nPackage: hello\nArchitecture: any\nDepends: ${misc:Depends}, a | b\nDescription: x\n long\n", "Source: x\nBuild-Depends: ((\n", "Source: x\n\nPackage: y\nDepends: a b\n", ""},
-	"control.ParseBinaryIndex":     {"Package: hello\nVersion: 2.10-1\nInstalled-Size: 280\nArchitecture: amd64\nSize: 10\n\nPackage: b\nVersion: 1\n", "Package: a\nVersion: 1\n\nPackage: b\nVersion: !\n", "Package: a\nInstalled-Size: x\n", ""},
-	"control.ParseSourceIndex":     {"Package: hello\nBinary: hello, hello-doc\nVersion: 2.10-1\nArchitecture: any all\nFiles:\n d41d8cd98f00b204e9800998ecf8427e 10 hello_2.10-1.dsc\n\nPackage: b\nVersion: 1\n", "Package: a\nVersion: 1\n\nPackage: b\nFiles:\n x\n", ""},
-	"deb.Control":                  {"Package: hello\nVersion: 2.10-1\nArchitecture: amd64\nDepends: a | b\nInstalled-Size: 10\n", "Package: hello\n", "Package: hello\nVersion: 1\nArchitecture: amd64\nInstalled-Size: x\n", ""},
+	"control.ParagraphReader":      {"-----BEGIN PGP SIGNED MESSAGE-----\nHash: SHA256\n\nSource: x\nVersion: 1\n", "-----BEGIN PGP SIGNED MESSAGE-----\nHash: SHA256\n\nSource: x\n-----BEGIN PGP SIGNATURE-----\n\niQ==\n-----END PGP SIGNATURE-----\n", "-----BEGIN PGP MESSAGE-----\n\nxxxx\n-----END PGP MESSAGE-----\n", "A: 1\nB: 2\n c\n .\n\nC: 3\n", "# c\nA:\n x\n", "no colon\n", " orphan\n", "A: 1\r\n\r\nB: 2", ""},
+	"control.ParagraphReader.Next": {"-----BEGIN PGP SIGNED MESSAGE-----\nHash: SHA256\n\nSource: x\nVersion: 1\n", "-----BEGIN PGP SIGNED MESSAGE-----\nHash: SHA256\n\nSource: x\n-----BEGIN PGP SIGNATURE-----\n\niQ==\n-----END PGP SIGNATURE-----\n", "-----BEGIN PGP MESSAGE-----\n\nxxxx\n-----END PGP MESSAGE-----\n", "A: 1\nB: 2\n c\n .\n\nC: 3\n", "# c\nA:\n x\n", "no colon\n", " orphan\n", ""},
+	"control.ParseDsc":             {"-----BEGIN PGP SIGNED MESSAGE-----\nHash: SHA256\n\nSource: x\nVersion: 1\n", "-----BEGIN PGP SIGNED MESSAGE-----\nHash: SHA256\n\nSource: x\n-----BEGIN PGP SIGNATURE-----\n\niQ==\n-----END PGP SIGNATURE-----\n", "-----BEGIN PGP MESSAGE-----\n\nxxxx\n-----END PGP MESSAGE-----\n", "Format: 3.0 (quilt)\nSource: hello\nBinary: hello, hello-doc\nArchitecture: any all\nVersion: 2.10-1\nBuild-Depends: debhelper (>= 9)\nFiles:\n d41d8cd98f00b204e9800998ecf8427e 10 hello_2.10-1.dsc\n", "Version: a\n", "Files:\n x\n", ""},
+	"control.ParseChanges":         {"-----BEGIN PGP SIGNED MESSAGE-----\nHash: SHA256\n\nSource: x\nVersion: 1\n", "-----BEGIN PGP SIGNED MESSAGE-----\nHash: SHA256\n\nSource: x\n-----BEGIN PGP SIGNATURE-----\n\niQ==\n-----END PGP SIGNATURE-----\n", "-----BEGIN PGP MESSAGE-----\n\nxxxx\n-----END PGP MESSAGE-----\n", "Format: 1.8\nSource: hello\nBinary: hello\nArchitecture: source\nVersion: 2.10-1\nFiles:\n d41d8cd98f00b204e9800998ecf8427e 10 devel optional hello_2.10-1.dsc\n", "Version: a\n", "Files:\n d41d 10 f\n", ""},
+	"control.ParseControl":         {"-----BEGIN PGP SIGNED MESSAGE-----\nHash: SHA256\n\nSource: x\nVersion: 1\n", "-----BEGIN PGP SIGNED MESSAGE-----\nHash: SHA256\n\nSource: x\n-----BEGIN PGP SIGNATURE-----\n\niQ==\n-----END PGP SIGNATURE-----\n", "-----BEGIN PGP MESSAGE-----\n\nxxxx\n-----END PGP MESSAGE-----\n", "Source: hello\nBuild-Depends: debhelper (>= 9)\n\nPackage: hello\nArchitecture: any\nDepends: ${misc:Depends}, a | b\nDescription: x\n long\n", "Source: x\nBuild-Depends: ((\n", "Source: x\n\nPackage: y\nDepends: a b\n", ""},
+	"control.ParseBinaryIndex":     {"-----BEGIN PGP SIGNED MESSAGE-----\nHash: SHA256\n\nSource: x\nVersion: 1\n", "-----BEGIN PGP SIGNED MESSAGE-----\nHash: SHA256\n\nSource: x\n-----BEGIN PGP SIGNATURE-----\n\niQ==\n-----END PGP SIGNATURE-----\n", "-----BEGIN PGP MESSAGE-----\n\nxxxx\n-----END PGP MESSAGE-----\n", "Package: hello\nVersion: 2.10-1\nInstalled-Size: 280\nArchitecture: amd64\nSize: 10\n\nPackage: b\nVersion: 1\n", "Package: a\nVersion: 1\n\nPackage: b\nVersion: !\n", "Package: a\nInstalled-Size: x\n", ""},
+	"control.ParseSourceIndex":     {"-----BEGIN PGP SIGNED MESSAGE-----\nHash: SHA256\n\nSource: x\nVersion: 1\n", "-----BEGIN PGP SIGNED MESSAGE-----\nHash: SHA256\n\nSource: x\n-----BEGIN PGP SIGNATURE-----\n\niQ==\n-----END PGP SIGNATURE-----\n", "-----BEGIN PGP MESSAGE-----\n\nxxxx\n-----END PGP MESSAGE-----\n", "Package: hello\nBinary: hello, hello-doc\nVersion: 2.10-1\nArchitecture: any all\nFiles:\n d41d8cd98f00b204e9800998ecf8427e 10 hello_2.10-1.dsc\n\nPackage: b\nVersion: 1\n", "Package: a\nVersion: 1\n\nPackage: b\nFiles:\n x\n", ""},
+	"deb.Control":                  {"-----BEGIN PGP SIGNED MESSAGE-----\nHash: SHA256\n\nSource: x\nVersion: 1\n", "-----BEGIN PGP SIGNED MESSAGE-----\nHash: SHA256\n\nSource: x\n-----BEGIN PGP SIGNATURE-----\n\niQ==\n-----END PGP SIGNATURE-----\n", "-----BEGIN PGP MESSAGE-----\n\nxxxx\n-----END PGP MESSAGE-----\n", "Package: hello\nVersion: 2.10-1\nArchitecture: amd64\nDepends: a | b\nInstalled-Size: 10\n", "Package: hello\n", "Package: hello\nVersion: 1\nArchitecture: amd64\nInstalled-Size: x\n", ""},
 	"changelog.Parse":              {"hello (1.0-1) unstable; urgency=low\n\n  * x\n\n -- A <a@b>  Mon, 02 Jan 2006 15:04:05 +0100\n\nhello (0.9-1) unstable; urgency=low\n\n  * y\n\n -- A <a@b>  Sun, 01 Jan 2006 15:04:05 +0100\n", "hello (1.0-1) unstable; urgency=low\n\n  * x\n", "hello (a) unstable;\n", ""},
 	"changelog.ParseOne":           {"hello (1.0-1) unstable; urgency=low\n\n  * x\n\n -- A <a@b>  Mon, 02 Jan 2006 15:04:05 +0100\n", " x\n", ""},
 }
@@ -618,6 +621,7 @@ func runDeterminism(r *mc.Run) {
 	r.Scenario("determinism-all-ordered-pairs", map[string]interface{}{"inputs": len(ins), "pairs": len(ins) * len(ins)}, len(ins), func(i int, st *mc.Stats) bool {
 		for _, x := range ins {
 			in := DetIn{ins[i].Entry, ins[i].Text, x.Entry, x.Text}
+			sl := enter(i, in.FirstEntry+" then "+in.Entry, in.FirstText+"\x00THEN\x00"+in.Text)
 			st.Evals++
 			st.Traces++
 			if in.FirstEntry != in.Entry || in.FirstText != in.Text {
@@ -629,6 +633,7 @@ func runDeterminism(r *mc.Run) {
 			} else {
 				st.Class("identical")
 			}
+			sl.leave()
 		}
 		return true
 	})
